@@ -392,6 +392,8 @@ package pppoe
 //@   ensures lcp.inv
 //@   ensures lcpTerm(old(lcp.state)) && lcpTerm(lcp.state) ==> lcp.restartCount <= old(lcp.restartCount)
 //@   ensures lcpTerm(lcp.state) ==> lcpTerm(old(lcp.state))
+// a reply that does not answer the outstanding request changes none of the negotiated options
+//@   ensures pkt.Identifier != old(lcp.lastIdentifier) ==> lcp.negotiated == old(lcp.negotiated)
 
 //@ func (lcp *LCPStateMachine) receiveConfigureReject
 //@   requires pkt != nil && lcp.inv
@@ -672,6 +674,8 @@ package pppoe
 //@   ensures ipcp.inv
 //@   ensures ipcpTerm(old(ipcp.state)) && ipcpTerm(ipcp.state) ==> ipcp.restartCount <= old(ipcp.restartCount)
 //@   ensures ipcpTerm(ipcp.state) ==> ipcpTerm(old(ipcp.state))
+// a reply that does not answer the outstanding request changes none of the negotiated options
+//@   ensures pkt.Identifier != old(ipcp.lastIdentifier) ==> ipcp.negotiated == old(ipcp.negotiated)
 
 //@ func (ipcp *IPCPStateMachine) receiveConfigureReject
 //@   requires pkt != nil && ipcp.inv
@@ -899,6 +903,8 @@ package pppoe
 //@   ensures ipv6cp.inv
 //@   ensures ipv6cpTerm(old(ipv6cp.state)) && ipv6cpTerm(ipv6cp.state) ==> ipv6cp.restartCount <= old(ipv6cp.restartCount)
 //@   ensures ipv6cpTerm(ipv6cp.state) ==> ipv6cpTerm(old(ipv6cp.state))
+// a reply that does not answer the outstanding request changes none of the negotiated options
+//@   ensures pkt.Identifier != old(ipv6cp.lastIdentifier) ==> ipv6cp.negotiated == old(ipv6cp.negotiated)
 
 //@ func (ipv6cp *IPV6CPStateMachine) receiveConfigureReject
 //@   requires pkt != nil && ipv6cp.inv
